@@ -19,7 +19,7 @@ def scanAsBuilt : List WBatch → Tail → List Log × Except Reject (List WBatc
     if hasLocation b then ([], .error .loop) else
     match classify b with
     | .exc e => ([], .error (.rpcError e))
-    | .badLevel => ([], .error .badLevel)
+    | .ignored => scanAsBuilt r t
     | .log l => let (ls, res) := scanAsBuilt r t; (l :: ls, res)
     | .data =>
       match scanAsBuilt r t with
